@@ -127,6 +127,38 @@ func (et ExposureTime) MarshalText() (text []byte, err error) {
 	return strconv.AppendFloat(nil, a, 'f', 2, 32), nil
 }
 
+// UnmarshalText implements the TextUnmarshaler interface that is
+// used by encoding/json. It accepts what MarshalText writes: nothing (zero),
+// a fraction "1/250" or a decimal number of seconds "2.50".
+func (et *ExposureTime) UnmarshalText(text []byte) (err error) {
+	if len(text) == 0 {
+		*et = 0
+		return nil
+	}
+	for i := 0; i < len(text); i++ {
+		if text[i] == '/' {
+			var n, d float64
+			if n, err = strconv.ParseFloat(string(text[:i]), 32); err != nil {
+				return err
+			}
+			if d, err = strconv.ParseFloat(string(text[i+1:]), 32); err != nil {
+				return err
+			}
+			if d == 0 {
+				return strconv.ErrRange
+			}
+			*et = ExposureTime(float32(n) / float32(d))
+			return nil
+		}
+	}
+	f, err := strconv.ParseFloat(string(text), 32)
+	if err != nil {
+		return err
+	}
+	*et = ExposureTime(f)
+	return nil
+}
+
 func (et ExposureTime) String() string {
 	buf, _ := et.MarshalText()
 	return string(buf)
